@@ -203,6 +203,9 @@ var (
 	gpos   int
 )
 
+// GoID identifies the calling goroutine (native replays only).
+func GoID() string { return goid() }
+
 func goid() string {
 	var buf [64]byte
 	n := runtime.Stack(buf[:], false)
